@@ -44,6 +44,7 @@ fn rule_next(spec: &AirSpec, p: u128, w_n: &dyn Fn(usize) -> u128, row: &[u128],
     match spec.rules[col] {
         Rule::Pow { d, c } => addm(powm(row[col], d.max(1) as u128, p), c as u128 % p, p),
         Rule::Periodic { cycle, c } => addm(mulm(row[col], periodic_value(step, cycle), p), c as u128 % p, p),
+        Rule::Periodic2 { cycle_a, cycle_b } => addm(mulm(row[col], periodic_value(step, cycle_a), p), periodic_value(step, cycle_b) % p, p),
         Rule::Rot { order } => mulm(row[col], w_n(order), p),
         Rule::FibA => row[col + 1],
         Rule::FibB => addm(row[col - 1], row[col], p),
